@@ -154,7 +154,7 @@ impl Property for C15 {
         "cases: a victim process fails at a generated point (builtin domain errors, missing file, ownership violation, injected backend write error, spawn/send/nested select inside a receive filter) inside a generated system of by-standers, direct and transitive single-source awaiters that await before, during or after the failure, senders to the victim before/after its death, and a multi-source selector (counted, not judged); each scenario runs under V sampled schedule/configuration variants. Non-trivial: >=2 workers, >=1 out-of-order handled message or injected fault, conclusive. Distinct = distinct (scenario shape, interleaving hash) pairs."
     }
     fn required_probes(&self) -> Vec<&'static str> {
-        vec!["awaiter_failed_with_victims_error", "bystander_unaffected", "client_saw_victim_error", "sender_to_dead_unaffected", "repl_session_survived_odd_line", "awaiter_with_effect_in_flight", "poller_no_longer_awaiting_when_victim_fails", "effect_result_over_binary_limit", "lines_entered_into_a_failed_session"]
+        vec!["awaiter_failed_with_victims_error", "bystander_unaffected", "client_saw_victim_error", "sender_to_dead_unaffected", "repl_session_survived_odd_line", "awaiter_with_effect_in_flight", "poller_no_longer_awaiting_when_victim_fails", "read_length_over_binary_limit", "lines_entered_into_a_failed_session"]
     }
     fn draw_cfg(&self, rng: &mut Rng, scn: &Scenario) -> crate::world::RunCfg {
         // the failure is the scenario's own; no additional random backend faults
@@ -196,9 +196,6 @@ impl Property for C15 {
             Fail::NoBackendIo
         } else if rng.chance(1, 30) {
             Fail::HostlessIo(rng.usize(HOSTLESS_CALLS.len()))
-        } else if rng.chance(1, 60) {
-            // (rare: every run moves 16 MiB through the transport and the event log)
-            Fail::HugeRead
         } else {
             *rng.pick(&fails)
         };
@@ -301,6 +298,24 @@ impl Property for C15 {
             let p = fresh_path(&mut next_child);
             expect_err.push(p);
             h.u64(0x5a);
+        }
+        // by-standers that ask for more bytes than a binary can hold: a read of 20 000 000 from a file of
+        // 16 MiB + 4 KiB (rare: every run moves 16 MiB through the transport and the event log), and a
+        // read of 10^15 bytes from a two-byte file - both are answered with what fits
+        let mut huge = false;
+        if !matches!(f, Fail::InjectedWrite(_) | Fail::HostlessIo(_) | Fail::NoBackendIo) {
+            if rng.chance(1, 60) {
+                body.push("bh = @{ f = [\"/huge\" .0, 0, 0] __file_open__, d = [f, 0, 20000000] __file_read__, d __binary_length__ }".to_string());
+                let p = fresh_path(&mut next_child);
+                expect_val.insert(p, "16777216".to_string());
+                huge = true;
+            }
+            if rng.chance(1, 8) {
+                body.push("bl = @{ f = [\"/cap\" .0, 577, 420] __file_open__, w = [f, 0, 0x0102] __file_write__, d = [f, 0, 1000000000000000] __file_read__, d __binary_length__ }".to_string());
+                let p = fresh_path(&mut next_child);
+                expect_val.insert(p, "2".to_string());
+                huge = true;
+            }
         }
         // a by-stander whose one select lists a builtin receiver ahead of a receive function with a
         // filter body, and gets a message for the filter
@@ -414,7 +429,7 @@ impl Property for C15 {
             modules: vec![],
             files: Default::default(),
             timing: false,
-            io: io || io_awaiters,
+            io: io || io_awaiters || huge,
             fixed_faults,
             expect: serde_json::json!({
                 "io_awaiters": io_awaiters,
@@ -426,6 +441,7 @@ impl Property for C15 {
                 "either": either,
                 "senders": senders,
                 "pollers": pollers,
+                "huge": huge,
             }),
             shape: h.0,
             est_len: 100,
@@ -660,8 +676,8 @@ pub fn probes_from(scn: &Scenario, r: &RunResult) -> BTreeMap<String, u64> {
     if e["pollers"].as_u64().unwrap_or(0) > 0 {
         m.insert("poller_no_longer_awaiting_when_victim_fails".into(), e["pollers"].as_u64().unwrap_or(0));
     }
-    if scn.family == "c15-HugeRead" {
-        m.insert("effect_result_over_binary_limit".into(), 1);
+    if e["huge"].as_bool().unwrap_or(false) {
+        m.insert("read_length_over_binary_limit".into(), 1);
     }
     if let Some(p) = e["relaxed"].as_str() {
         match r.procs.get(p) {
